@@ -4,7 +4,16 @@
 set -u
 SD=$1; P=$2; TIER=${3:-quick}
 export GOFLAGS=-mod=mod GOPROXY=off GOSUMDB=off GOTOOLCHAIN=local
-cd /repo || exit 2
+# default: apply to /repo itself; with SEED_WT=<dir> a scratch worktree of /repo's HEAD is used instead (lets a
+# long-running check on /repo continue undisturbed); the checks then read it through VERIF_REPO.
+R=/repo
+if [ -n "${SEED_WT:-}" ]; then
+  R=$SEED_WT
+  [ -d "$R/.git" ] || [ -f "$R/.git" ] || git -C /repo worktree add -q --detach "$R" HEAD || exit 2
+  git -C "$R" checkout -q --detach "$(git -C /repo rev-parse HEAD)" && git -C "$R" checkout -q -- . && git -C "$R" clean -fdq
+  export VERIF_REPO=$R
+fi
+cd $R || exit 2
 git diff --quiet || { echo "repo dirty"; exit 2; }
 demo=$(ls $SD/*_test.go $SD/demo_test.go.txt 2>/dev/null | head -1)
 pkgdir=$(grep -ohE "server(/[a-z0-9_/]+)?" $SD/notes.md 2>/dev/null | head -1)
@@ -12,16 +21,16 @@ pkgdir=$(grep -ohE "server(/[a-z0-9_/]+)?" $SD/notes.md 2>/dev/null | head -1)
 [ -z "$pkgdir" ] && pkgdir=server
 echo "== $SD property=$P demo=$demo pkg=$pkgdir"
 if [ -n "$demo" ]; then
-  cp $demo /repo/$pkgdir/zz_seeded_demo_test.go
-  (cd /repo/$pkgdir && go test -tags mysql -vet=off -count=1 -run 'Seeded' . >/tmp/seed_clean.log 2>&1); echo "demo on clean tree: exit $? (want 0)"
+  cp $demo $R/$pkgdir/zz_seeded_demo_test.go
+  (cd $R/$pkgdir && go test -tags mysql -vet=off -count=1 -run 'Seeded' . >/tmp/seed_clean.log 2>&1); echo "demo on clean tree: exit $? (want 0)"
 fi
-git apply $SD/patch.diff || { echo "patch does not apply"; rm -f /repo/$pkgdir/zz_seeded_demo_test.go; exit 2; }
+git apply $SD/patch.diff || { echo "patch does not apply"; rm -f $R/$pkgdir/zz_seeded_demo_test.go; exit 2; }
 if [ -n "$demo" ]; then
-  (cd /repo/$pkgdir && go test -tags mysql -vet=off -count=1 -run 'Seeded' . >/tmp/seed_patched.log 2>&1); echo "demo on patched tree: exit $? (want non-zero)"
-  rm -f /repo/$pkgdir/zz_seeded_demo_test.go
+  (cd $R/$pkgdir && go test -tags mysql -vet=off -count=1 -run 'Seeded' . >/tmp/seed_patched.log 2>&1); echo "demo on patched tree: exit $? (want non-zero)"
+  rm -f $R/$pkgdir/zz_seeded_demo_test.go
 fi
 go build ./server/... >/dev/null 2>&1; echo "build: exit $?"
 go test -vet=off -count=1 ./server ./server/db/common ./server/drafty ./server/ringhash >/tmp/seed_suite.log 2>&1; echo "suite on patched tree: exit $? (want 0)"
 cd /verif && ./check $P $TIER > /tmp/seed_check.log 2>&1; rc=$?
 echo "check $P $TIER: exit $rc"; grep -a -E "^(VIOLATION|KNOWN|INCONCLUSIVE|  harness=)" /tmp/seed_check.log | cut -c1-400 | head -8; tail -1 /tmp/seed_check.log
-cd /repo && git checkout -- . && git status --short | head -3
+cd $R && git checkout -- . && git status --short | head -3
